@@ -4,7 +4,7 @@ import re, random, collections
 from vlib import parse_tla_value
 
 
-def parse_dot(path, want_vars=None):
+def parse_dot(path, keep_labels=False):
     nodes = {}      # id -> label text
     init = []
     edges = collections.defaultdict(list)   # src -> [(dst, label)]
@@ -20,9 +20,11 @@ def parse_dot(path, want_vars=None):
                 continue
             m = node_re.match(line)
             if m:
-                nodes[m.group(1)] = m.group(2)
                 if m.group(3):
                     init.append(m.group(1))
+                    nodes[m.group(1)] = m.group(2)
+                elif keep_labels:
+                    nodes[m.group(1)] = m.group(2)
     return nodes, init, edges, nedges
 
 
